@@ -13,7 +13,9 @@ from vf import oracles as O
 from vf.engine import Ctx, Property
 
 finite = gen.finite
-_level = st.one_of(st.sampled_from([0.0, 1.0, -1.0, 0.5, 2.0]), st.floats(-100, 100, **finite).map(gen.r6))
+# intensity levels: magnitudes below 1e-6 are snapped to 0 (a sub-normal level such as 5e-324 has no representable midpoint
+# with 0, so "exceeds the midpoint" cannot be evaluated in double precision - an oracle limit, not a library matter)
+_level = st.one_of(st.sampled_from([0.0, 1.0, -1.0, 0.5, 2.0]), st.floats(-100, 100, **finite).map(lambda x: 0.0 if abs(x) < 1e-6 else gen.r6(x)))
 
 
 @st.composite
